@@ -335,7 +335,24 @@ func famAuthzExec(w *world, r *hx.Rng, o *hx.Out) {
 			mt := transfertypes.NewMsgTransfer(q.port, q.channel, sdk.Coin{Denom: q.denom, Amount: q.amt}, gAddr.String(), q.receiver,
 				clienttypes.NewHeight(1, 1000000), 0, q.memo)
 			me := authz.NewMsgExec(eAddr, []sdk.Msg{mt})
+			// would the stored authorization accept this message on its own? (tells an authorization rejection
+			// from a failure of the transfer itself, which reverts the whole transaction)
+			acceptOK := false
+			if cur != nil {
+				cctx, _ := w.A.GetContext().CacheContext()
+				resp, aerr := cloneAuth(cur).Accept(cctx, mt)
+				acceptOK = aerr == nil && resp.Accept
+			}
 			_, err := w.A.SendMsgsWithSender(grantee, &me)
+			errText := ""
+			if err != nil {
+				resync(w.A, grantee.SenderAccount)
+				errText = err.Error()
+				if len(errText) > 600 {
+					errText = errText[:600]
+				}
+			}
+			execFailed := err != nil && acceptOK
 			moved := before.Sub(balOf(w.A, gAddr, q.denom))
 			stored, _ := w.A.GetSimApp().AuthzKeeper.GetAuthorization(w.A.GetContext(), eAddr, gAddr, msgType)
 			cur = nil
@@ -344,8 +361,9 @@ func famAuthzExec(w *world, r *hx.Rng, o *hx.Out) {
 			}
 			rq := reqJ(q)
 			rq["spendable"] = before.String()
+			rq["exec_failed"] = execFailed
 			reqs = append(reqs, rq)
-			outs = append(outs, map[string]any{"ok": err == nil, "panic": false, "state": stateJ(cur), "moved": moved.String()})
+			outs = append(outs, map[string]any{"ok": err == nil, "panic": false, "state": stateJ(cur), "moved": moved.String(), "why": errText})
 		}
 		in["reqs"] = reqs
 		o.Emit("authz_exec", in, outs, "msgexec")
